@@ -114,8 +114,13 @@ CHECKS = {
              "with Wtp.expand on arbitrary (cyclic) call graphs; a corpus of ten direct cycle shapes must return with the "
              "error element and a recorded message; every name in PARSER_FUNCTIONS x argument vectors from a 60-entry pool x "
              "9 page titles, #expr token soups and nesting ladders to depth 150 must return a str without raising, under a "
-             "wall-clock bound. PARTIAL: no bound on total work is proved (exponential worst case: known finding); parser "
-             "function totality is by exhaustive-over-names execution, not by a semantic model.",
+             "wall-clock bound; pages with several calls side by side. Theorems c05_expr_parser_never_runs_out_of_fuel, "
+             "c05_expr_parser_answer_is_stable, c05_expr_total_machine_is_the_compared_machine, "
+             "c05_expr_parser_total_for_the_current_ladder: the recursive-descent parser of #expr, as the ladder machine that is "
+             "compared with expr_fn on every run (over the ladder regenerated from the source), ends on EVERY token list in a tree "
+             "or a syntax error with a nesting depth of at most 12n+11 calls for n tokens, and more fuel never changes the answer. "
+             "PARTIAL: no bound on total work of expand() is proved (exponential worst case: known finding); totality of the "
+             "other parser functions is by exhaustive-over-names execution, not by a semantic model.",
         note=TRUST + "time bound enforced by SIGALRM; the two network-backed functions (#property, #statements) are excluded.",
         ref="DESIGN.md section 4 C05"),
     "C08": dict(
@@ -177,9 +182,14 @@ CHECKS = {
              "such token sequences are counted and skipped); ASCII word characters.",
         ref="DESIGN.md section 4 C03"),
     "C19": dict(
-        technique="Coq proofs (attribute round trip; bracket protection leaves no double bracket) + protect correspondence + three-parse round-trip oracle",
+        technique="Coq proofs (attribute round trip; bracket protection leaves no double bracket; table trees are read back from what to_wikitext writes) + protect and table-emitter correspondence + three-parse round-trip oracle",
         text="Theorems c19_attributes_survive, c19_no_double_bracket_after_protection (for every string) and "
              "c19_protection_only_inserts_markers; the protect model is compared with to_wikitext on generated bracket strings. "
+             "Theorems c19_table_trees_survive_the_round_trip and c19_written_tables_round_trip: what the TABLE/CAPTION/ROW/"
+             "HEADER_CELL/CELL emitters write (Model/TableEmit.v, at the level of the table handlers' tokens) for ANY table tree of "
+             "the shape the parser builds is read back by the table machine of Model/Tables.v as exactly that tree, at any size and "
+             "nesting depth, and the trees of written tables have that shape (parse, to_wikitext, parse gives the first tree); the "
+             "emitter model is compared inside Coq with the tokens of the real to_wikitext output on the trees of written tables. "
              "PARTIAL: equivalence of the tree after to_wikitext + parse (up to whitespace at block boundaries), the fixed-point "
              "clause and the list-argument API are decided by execution on generated documents (sections, lists, tables with "
              "URL-safe attributes, inline markup, templates, parser functions, HTML elements, definition lists).",
